@@ -31,6 +31,20 @@ func main() {
 	for _, v := range viol {
 		st.Fail("weak-random:"+v.Func+"->"+v.Bad, "key-material code reaches math/rand: "+v.Source+" ... "+v.Func+" references "+v.Bad+" at "+v.At, v)
 	}
+	badSet := map[int]bool{}
+	for _, b := range facts.Bad {
+		badSet[b] = true
+	}
+	for _, d := range facts.Direct {
+		st.Count("direct:"+facts.Name(d), len(facts.Succ[d]) > 0, "wallet-key-command")
+		for _, t := range facts.Succ[d] {
+			if badSet[t] {
+				at := facts.Sites[fmt.Sprintf("%d,%d", d, t)]
+				st.Fail("weak-random:"+facts.Name(d)+"->"+facts.Name(t), "wallet key-management command references math/rand: "+facts.Name(d)+" references "+facts.Name(t)+" at "+at,
+					map[string]interface{}{"func": facts.Name(d), "bad": facts.Name(t), "at": at})
+			}
+		}
+	}
 	for _, s := range facts.Sources {
 		st.Count("src:"+facts.Name(s), len(facts.Succ[s]) > 0, "source-function")
 	}
